@@ -99,10 +99,6 @@ spec fn flushed_to(ps: Seq<Piece>, a: int) -> int { if ps.len() > 0 { ps.last().
             let ghost mut k: int = 0;
             proof { float_ax::float_det(); }
 //@loop 1
-                invariant
-                    [[L: loop1/frame]]
-                    item_start <= item_end, ents.len() < 0xff_ffff,
-                    *summary == *old(summary),
                 invariant_except_break
                     [[L: loop1/increment_invariant]]
                     sweep_inv(overlap@, d, k, item_start, item_end, ents),
@@ -110,6 +106,10 @@ spec fn flushed_to(ps: Seq<Piece>, a: int) -> int { if ps.len() > 0 { ps.last().
                     [[L: loop1/index_is_position_k]]
                     index.some() ==> overlap.has(index) && overlap.pos(index) == k && k < overlap@.len(),
                     !index.some() ==> k == overlap@.len(),
+                invariant
+                    [[L: loop1/frame]]
+                    item_start <= item_end, ents.len() < 0xff_ffff,
+                    *summary == *old(summary),
                 ensures
                     [[L: loop1/exit]]
                     sweep_done(overlap@, d, k, item_start, item_end, ents),
@@ -121,30 +121,30 @@ spec fn flushed_to(ps: Seq<Piece>, a: int) -> int { if ps.len() > 0 { ps.last().
                 proof { float_ax::float_det(); }
                 let ghost l_in = overlap@;
 //@at /^\s*break;\s*$/ before
-                            proof {
+                            proof { [[L: loop1/split_keeps_depths_exact]]
                                 let nv = Value { start: l_in[k].start, end: item_end, value: l_in[k].value.add_spec(1.0f32) };
                                 let tl = Value { start: item_end, end: l_in[k].end, value: nv.value.sub_spec(1.0f32) };
                                 assert(overlap@ == l_in.update(k, nv).insert(k + 1, tl));
-                                lemma_sweep_split(l_in, d, k, item_start, item_end, ents, nv, tl); [[L: loop1/split_keeps_depths_exact]]
+                                lemma_sweep_split(l_in, d, k, item_start, item_end, ents, nv, tl);
                                 d = d.update(k, d[k] + 1).insert(k + 1, d[k]);
                                 k = k + 1;
                             }
 //@at /index = overlap\.next_index\(index\);/ after
-                        proof {
+                        proof { [[L: loop1/increment_keeps_depths_exact]]
                             let nv = Value { start: l_in[k].start, end: l_in[k].end, value: l_in[k].value.add_spec(1.0f32) };
                             assert(overlap@ == l_in.update(k, nv));
-                            lemma_sweep_nosplit(l_in, d, k, item_start, item_end, ents, nv); [[L: loop1/increment_keeps_depths_exact]]
+                            lemma_sweep_nosplit(l_in, d, k, item_start, item_end, ents, nv);
                             d = d.update(k, d[k] + 1);
                             k = k + 1;
                         }
 //@at /overlap@\.last\(\)\.end >= item_start\)\);/ before
-            proof {
+            proof { [[L: after_increment_exact_on_old_span]]
                 lemma_sweep_finish(overlap@, d, k, item_start, item_end, ents);
                 if overlap@.len() > 0 { let _ = overlap@[overlap@.len() - 1]; }
             }
             let ghost l_mid = overlap@;
 //@at /let next_start = next_start_opt\.unwrap_or/ before
-            proof {
+            proof { [[L: tail_extended_to_max_end]]
                 if l_mid.len() > 0 && l_mid.last().end >= item_end {
                     lemma_tail_keep(l_mid, d, item_start, item_end, ents);
                 } else {
@@ -154,7 +154,7 @@ spec fn flushed_to(ps: Seq<Piece>, a: int) -> int { if ps.len() > 0 { ps.last().
                     d = d.push(1nat);
                 }
                 assert(segs_ok(overlap@, d, item_start as int, ents2));
-                assert(hi_of(overlap@, item_start as int) == imax(hi0, item_end as int)); [[L: tail_extended]]
+                assert(hi_of(overlap@, item_start as int) == imax(hi0, item_end as int));
             }
             let ghost hi1 = imax(hi0, item_end as int);
 //@at /let next_start = next_start_opt\.unwrap_or/ after
@@ -190,7 +190,7 @@ spec fn flushed_to(ps: Seq<Piece>, a: int) -> int { if ps.len() > 0 { ps.last().
                 let ghost l_in = overlap@;
                 let ghost sum_in = *summary;
 //@at /match summary \{/ before
-                proof {
+                proof { [[L: flush/step_removes_exact_piece]]
                     let d_first = d[0];
                     let _ = l_in[0];
                     assert(seg_depth(l_in[0], d[0], ents2));
@@ -213,7 +213,7 @@ spec fn flushed_to(ps: Seq<Piece>, a: int) -> int { if ps.len() > 0 { ps.last().
                     lo = lo2;
                 }
 //@close
-            proof {
+            proof { [[L: exit]]
                 if overlap@.len() > 0 { let _ = overlap@[0]; } else { lemma_cnt_zero_ext(ents2, lo, next_start as int); }
             }
             Ghost((d, ps))
